@@ -361,3 +361,18 @@ REGEX_RULES.update(_rc.REGEX_RULES)
 from . import rewrites_writer as _rw  # noqa: E402
 RULES.update(_rw.RULES)
 REGEX_RULES.update(_rw.REGEX_RULES)
+
+# rules of units name_builder / name_text (NB*) live in vq/rewrites_names.py
+from . import rewrites_names as _nb  # noqa: E402
+RULES.update(_nb.RULES)
+REGEX_RULES.update(_nb.REGEX_RULES)
+
+# rules of units tsig / tsig_rdata (TS*) live in vq/rewrites_tsig.py
+from . import rewrites_tsig as _ts  # noqa: E402
+RULES.update(_ts.RULES)
+REGEX_RULES.update(_ts.REGEX_RULES)
+
+# rules of unit zone_file_records (ZF*) live in vq/rewrites_zone_file.py
+from . import rewrites_zone_file as _zf  # noqa: E402
+RULES.update(_zf.RULES)
+REGEX_RULES.update(_zf.REGEX_RULES)
